@@ -43,10 +43,16 @@ Comps == JsonDeserialize(IOEnv.QUANT_COMPS)
 Fams   == JsonDeserialize(IOEnv.QUANT_FAMS)
 Ranges == JsonDeserialize(IOEnv.QUANT_RANGES)
 
+\* Schedules: orders in which ONE process runs all representations through the same long-lived
+\* objects (module-level singletons, class-level state): [id, steps: <<[k, a, b]>>] where a step is
+\* a fixed instance (k = "inst", a = instance index) or a (family a, range b) pair (k = "param").
+Scheds == JsonDeserialize(IOEnv.QUANT_SCHEDS)
+
 VARIABLES inst, raw,      \* scalar machine: instance index, raw value
           ci, tup,        \* composite machine: composite index, tuple of raw values
-          pf, pr          \* parametric machine: family index, range index (raw is shared)
-vars == <<inst, raw, ci, tup, pf, pr>>
+          pf, pr,         \* parametric machine: family index, range index (raw is shared)
+          hs, hp, mem     \* history machine: schedule, position, what the quantiser code remembers
+vars == <<inst, raw, ci, tup, pf, pr, hs, hp, mem>>
 
 Abs(x) == IF x < 0 THEN -x ELSE x
 MinOf(a, b) == IF a < b THEN a ELSE b
@@ -83,8 +89,8 @@ NeedsZero(i) == Centred(i) /\ i.kind # "numpy"
 -----------------------------------------------------------------------------------------
 (* The machine: one state per (instance, raw) *)
 I == Insts[inst]
-Init == inst \in DOMAIN Insts /\ raw = Insts[inst].rawMin /\ ci = 0 /\ tup = <<>> /\ pf = 0 /\ pr = 0
-Step == raw < I.rawMax /\ raw' = raw + 1 /\ UNCHANGED <<inst, ci, tup, pf, pr>>
+Init == inst \in DOMAIN Insts /\ raw = Insts[inst].rawMin /\ ci = 0 /\ tup = <<>> /\ pf = 0 /\ pr = 0 /\ hs = 0 /\ hp = 0 /\ mem = <<>>
+Step == raw < I.rawMax /\ raw' = raw + 1 /\ UNCHANGED <<inst, ci, tup, pf, pr, hs, hp, mem>>
 Next == Step
 Spec == Init /\ [][Next]_vars
 
@@ -139,7 +145,7 @@ Lattice(c, k) == IF k = 0 THEN {<<>>}
 C == Comps[ci]
 CInit == /\ ci \in DOMAIN Comps
          /\ tup \in Lattice(Comps[ci], Len(Comps[ci].comps)) \cup ToSet(Comps[ci].extra)
-         /\ inst = 1 /\ raw = Insts[1].rawMin /\ pf = 0 /\ pr = 0
+         /\ inst = 1 /\ raw = Insts[1].rawMin /\ pf = 0 /\ pr = 0 /\ hs = 0 /\ hp = 0 /\ mem = <<>>
 CNext == UNCHANGED vars
 CSpec == CInit /\ [][CNext]_vars
 
@@ -181,7 +187,7 @@ PLattice(f) == LET S == f.rawMax - f.rawMin
 PInit == /\ pf \in DOMAIN Fams /\ pr \in DOMAIN Ranges
          /\ Fams[pf].lo0only => Ranges[pr].lo0
          /\ raw \in PLattice(Fams[pf])
-         /\ inst = 1 /\ ci = 0 /\ tup = <<>>
+         /\ inst = 1 /\ ci = 0 /\ tup = <<>> /\ hs = 0 /\ hp = 0 /\ mem = <<>>
 PNext == UNCHANGED vars
 PSpec == PInit /\ [][PNext]_vars
 
@@ -228,4 +234,31 @@ PRow == IF Degenerate(R)
               zero |-> (NeedsZero(P) /\ Val(P, raw) = 0),
               near |-> [k \in 1..4 |-> LET s == IF k = 1 THEN -2 ELSE IF k = 2 THEN -1 ELSE IF k = 3 THEN 1 ELSE 2 IN
                                        [n4 |-> Clamp4(P, Probe(P, raw, s)), ok |-> Allowed(P, raw, Probe(P, raw, s))]]]
+
+-----------------------------------------------------------------------------------------
+(* History.  A quantiser is a FUNCTION of (representation, range, raw): whatever objects    *)
+(* the code keeps alive between uses (module-level singletons shared by all animations,     *)
+(* class-level tables shared by instances) must stay observationally empty.  The machine    *)
+(* walks a schedule; `mem` is everything an earlier step may leave behind for a later one    *)
+(* and never changes, so what step hp must answer is Table(step) -- the rows of the scalar   *)
+(* and parametric machines above, which do not mention hs, hp or mem -- no matter which      *)
+(* steps came before (other ranges on the same singleton, the other wire width of the same   *)
+(* range, ascending / descending / interleaved orders).                                      *)
+HSteps == Scheds[hs].steps
+HInit == /\ hs \in DOMAIN Scheds /\ hp = 0 /\ mem = <<>>
+         /\ inst = 1 /\ raw = Insts[1].rawMin /\ ci = 0 /\ tup = <<>> /\ pf = 0 /\ pr = 0
+HStep == /\ hp < Len(HSteps) /\ hp' = hp + 1 /\ mem' = mem
+         /\ UNCHANGED <<inst, raw, ci, tup, pf, pr, hs>>
+HSpec == HInit /\ [][HStep]_vars
+StepOK(st) == \/ st.k = "inst" /\ st.a \in DOMAIN Insts /\ st.w = Insts[st.a].rawMax - Insts[st.a].rawMin
+              \/ st.k = "param" /\ st.a \in DOMAIN Fams /\ st.b \in DOMAIN Ranges
+                   /\ (Fams[st.a].lo0only => Ranges[st.b].lo0)
+                   /\ st.w = Fams[st.a].rawMax - Fams[st.a].rawMin
+                   /\ st.r = <<Ranges[st.b].lo, Ranges[st.b].hi>>
+HTypeOK  == hp \in 0..Len(HSteps) /\ (hp > 0 => StepOK(HSteps[hp]))
+MemEmpty == mem = <<>>
+\* which earlier steps shared the range of this one at another wire width / shared its family
+\* (st.r is the range as a token, st.w the width of the wire type; both checked in StepOK)
+BoundsOf(st) == st.r
+WidthOf(st)  == st.w
 ====
